@@ -83,7 +83,7 @@ func checkJSONLine(line []byte, sp *evSpec, structureOnly bool, truncated bool) 
 		}
 		if i == 0 {
 			// the level member: its name, in whatever letter case the layout chooses
-			if g, ok := obj.Vals[0].(string); !ok || obj.Keys[0] != "level" || !strings.EqualFold(g, sp.levelName) {
+			if g, ok := obj.Vals[0].(string); !ok || obj.Keys[0] != "level" || !strings.EqualFold(g, string(expectedDecode(nil, sp.levelName))) {
 				return obj, fmt.Sprintf("level member is %q=%v, expected the name %q", obj.Keys[0], obj.Vals[0], sp.levelName), "header"
 			}
 			continue
@@ -182,6 +182,8 @@ func c0708Worker(w *W) {
 		n = gc.Index + 1
 	}
 	prop := w.Spec.Prop
+	fgHostileLevels = prop == "C07"
+	w.CountMax("max_levels_in_generator", int64(len(fgAllLevels())))
 
 	switch w.Spec.Kind {
 	case "direct":
